@@ -40,7 +40,7 @@ ASSUMPTIONS = [
 PROBES = ["q_mut_q", "q_after_append", "q_after_remove", "q_after_modify_element", "q_after_modify_row",
           "q_after_modify_column", "q_after_rename", "q_after_fillna", "q_after_reset_index", "index_query_repeat",
           "nonrange_index", "block_query_hit", "alias_retired", "nan_cell", "dup_value_hit", "new_column_added",
-          "empty_table", "from_query_holder", "slice_holder", "copy_holder", "viewer_built", "viewer_child_block", "viewer_append", "viewer_append_to_empty",
+          "empty_table", "from_query_holder", "slice_holder", "copy_holder", "viewer_built", "viewer_child_block", "viewer_append", "viewer_append_to_empty", "viewer_from_iterator",
           "viewer_query", "viewer_query_on_child"]
 # the same check again, smaller, in interpreters started with assertions stripped (python -O / PYTHONOPTIMIZE=1)
 ENV_VARIANTS = [{"name": "python-O", "env": {"PYTHONOPTIMIZE": "1"}, "runs": {'quick': 2500, 'thorough': 25000}}]
@@ -302,7 +302,7 @@ VQ_KINDS = ["len", "iterate", "getitem", "getslice", "contains_stmt_id", "all_st
 def _gen_viewer_op(rng, k):
     r = rng.random()
     if r < 0.17:
-        return {"op": "viewer_new", "h": rng.randrange(8)}
+        return {"op": "viewer_new", "h": rng.randrange(8), "via": rng.choice(["table", "table", "iter", "generator", "list"])}
     if r < 0.22:
         return {"op": "viewer_new", "h": 0, "empty": True}       # the production pattern: start empty, then append views
     if r < 0.45:
@@ -734,7 +734,17 @@ def execute(trace):
                 rows = [dict(r) for _, r in h["model"].rows]
                 if not gir_wellformed(rows):
                     continue
-                v = sut(lambda: _GBV(h["dm"]))
+                via = op.get("via", "table")
+                if via == "iter":
+                    v = sut(lambda: _GBV(iter(h["dm"])))                 # a one-shot iterator over the rows
+                elif via == "generator":
+                    v = sut(lambda: _GBV(r_ for r_ in h["dm"]))          # a generator expression
+                elif via == "list":
+                    v = sut(lambda: _GBV(list(h["dm"])))
+                else:
+                    v = sut(lambda: _GBV(h["dm"]))
+                if via in ("iter", "generator"):
+                    hit("viewer_from_iterator")
                 add_viewer(v, rows, -1, len(rows), h)
                 hit("viewer_built")
                 log.append([kind, len(rows)])
